@@ -14,19 +14,22 @@ R(c, b) == c \div b
 SVals == <<NULL, 1, 2, 3, 4, 5>>
 IVals == <<NULL, -1, 0, 1, 2, 3>>
 BVals == <<NULL, 0, 1>>
-DocFrom(id, c) == [id |-> id, s |-> SVals[D(c, 6) + 1], i |-> IVals[D(R(c, 6), 6) + 1], b |-> BVals[D(R(c, 36), 3) + 1]]
-ValSeq(f) == CASE f = "s" -> SVals [] f = "i" -> IVals [] f = "b" -> BVals
-FName(k) == <<"s", "i", "b">>[k + 1]
+JAll == <<NULL, 1, 2, 3, 4, 5, 6, 7, 8, 9, 10, 11, 12>>
+JLit == <<NULL, 3, 4, 5, 6, 7, 8, 9, 10>>        \* operands that fit a GraphQL Int literal
+DocFrom(id, c) == [id |-> id, s |-> SVals[D(c, 6) + 1], i |-> IVals[D(R(c, 6), 6) + 1], b |-> BVals[D(R(c, 36), 3) + 1],
+                   j |-> JAll[D(R(c, 108), 13) + 1]]
+ValSeq(f) == CASE f = "s" -> SVals [] f = "i" -> IVals [] f = "b" -> BVals [] f = "j" -> JLit
+FName(k) == <<"s", "i", "b", "j">>[k + 1]
 CmpOps == <<"_eq", "_ne", "_gt", "_ge", "_lt", "_le">>
 
 AtomFrom(c) ==
-  LET f  == FName(D(c, 3))
-      c1 == R(c, 3)
+  LET f  == FName(D(c, 4))
+      c1 == R(c, 4)
       vs == ValSeq(f)
       n  == Len(vs)
       k  == D(c1, 10)
       c2 == R(c1, 10)
-  IN IF k <= 5 /\ (f = "i" \/ k <= 1)          \* < <= > >= are defined for numbers only
+  IN IF k <= 5 /\ (f \in {"i", "j"} \/ k <= 1)   \* < <= > >= are defined for numbers only
      THEN IF k <= 1 THEN [t |-> "cmp", f |-> f, op |-> CmpOps[k + 1], v |-> vs[D(c2, n) + 1]]
                     ELSE [t |-> "cmp", f |-> f, op |-> CmpOps[k + 1], v |-> vs[D(c2, n - 1) + 2]]   \* no null operand for < <= > >=
      ELSE IF k \in {6, 7} \/ (f = "b" /\ k <= 7) \/ (f = "s" /\ k \in {2, 3})
@@ -50,8 +53,8 @@ FilterFrom(sh, a1, a2, a3) ==
 
 OrderFrom(c) ==
   LET nk == D(c, 4)                           \* 0, 1, 2, 2 keys
-      f1 == FName(D(R(c, 4), 3))     d1 == D(R(c, 12), 2) = 1
-      f2 == FName(D(R(c, 24), 3))    d2 == D(R(c, 72), 2) = 1
+      f1 == FName(D(R(c, 4), 4))     d1 == D(R(c, 16), 2) = 1
+      f2 == FName(D(R(c, 32), 4))    d2 == D(R(c, 128), 2) = 1
   IN IF nk = 0 THEN <<>>
      ELSE IF nk = 1 \/ f1 = f2 THEN <<[f |-> f1, desc |-> d1]>>
      ELSE <<[f |-> f1, desc |-> d1], [f |-> f2, desc |-> d2]>>
@@ -59,20 +62,21 @@ OrderFrom(c) ==
 QueryFrom(kc, sh, a1, a2, a3, oc, lc) ==
   LET flt == FilterFrom(sh, a1, a2, a3) IN
   IF kc <= 5 THEN [kind |-> "list", flt |-> flt, order |-> OrderFrom(oc), limit |-> D(lc, 4), offset |-> D(R(lc, 4), 3),
-                   fn |-> "", af |-> "", gf |-> ""]
+                   fn |-> "", af |-> "", gf |-> "", gl |-> 0, go |-> 0]
   ELSE IF kc <= 8 THEN [kind |-> "agg", flt |-> flt, order |-> <<>>, limit |-> 0, offset |-> 0,
-                        fn |-> <<"_count", "_sum", "_avg", "_min", "_max">>[D(oc, 5) + 1], af |-> "i", gf |-> ""]
-  ELSE [kind |-> "group", flt |-> flt, order |-> <<>>, limit |-> 0, offset |-> 0, fn |-> "", af |-> "", gf |-> FName(D(oc, 3))]
+                        fn |-> <<"_count", "_sum", "_avg", "_min", "_max">>[D(oc, 5) + 1], af |-> "i", gf |-> "", gl |-> 0, go |-> 0]
+  ELSE [kind |-> "group", flt |-> flt, order |-> <<>>, limit |-> 0, offset |-> 0, fn |-> "", af |-> "", gf |-> FName(D(oc, 4)),
+        gl |-> D(lc, 3), go |-> D(R(lc, 3), 4)]
 
 Big == 1000000
 \* state-level on purpose: TLC evaluates constant-level expressions once and would reuse the same "random" value
 RE(n) == RandomElement(0..(n + step - step))
 Init == step = 0 /\ case = <<>>
 Next ==
-  \E dc \in {[k \in 1..NDocs |-> RE(107)]} :
+  \E dc \in {[k \in 1..NDocs |-> RE(1403)]} :
   \E kc \in {RE(9)}, sh \in {RE(11)} :
   \E a1 \in {RE(Big)}, a2 \in {RE(Big)}, a3 \in {RE(Big)} :
-  \E oc \in {RE(143)}, lc \in {RE(11)} :
+  \E oc \in {RE(255)}, lc \in {RE(11)} :
     LET docs == {DocFrom(k, dc[k]) : k \in 1..NDocs}
         q == QueryFrom(kc, sh, a1, a2, a3, oc, lc)
     IN /\ step' = step + 1
